@@ -240,6 +240,57 @@ class ShowDriver(MachineDriver):
                 "l1": [(e.priority, tuple(e.dest_color) if e.dest_color is not None else None) for e in self.m.lights["l1"].stack]}
 
 
+class NestedDriver(MachineDriver):
+    """A looping parent show (priority 10) whose only step plays sh2 as a nested show, next to a rival entry on the same
+    light: every run of the nested show must look like the first one (a show leaves nothing behind, not even in its own
+    definition), and stopping the parent removes everything it set."""
+    machine_name = "c17"
+
+    def setup(self):
+        self.parent = None
+        self.m.lights["l1"].color("blue", priority=15, key="rival")
+        self.loop.drain()
+        self.plays = 0
+
+    def ops(self):
+        return [["playp"]] if self.parent is None else [["stopp"]]
+
+    def do_op(self, op):
+        if op[0] == "playp":
+            self.parent = self.m.shows["shp"].play(priority=10, loops=-1)
+            self.plays += 1
+            self.stat("nested_parent_plays")
+        else:
+            self.parent.stop()
+            self.parent = None
+
+    def oracle(self, choice):
+        stack = [(e.priority, str(e.key)) for e in self.m.lights["l1"].stack]
+        others = [x for x in stack if x[1] != "rival"]
+        if self.parent is None:
+            if others or len(stack) != 1:
+                self.violate("nested:left-behind", "the parent show is stopped but l1's stack is %r" % (stack,))
+            return
+        if others:
+            self.stat("nested_entries_checked")
+        for prio, key in others:
+            if prio != 10:
+                self.violate("nested:priority", "the nested show (own priority 0, parent 10) put an entry of priority %d on l1 "
+                             "at t=%.3f (play #%d of the parent); its first run used 10" % (prio, self.loop.time() - self.t0, self.plays))
+
+    def fingerprint(self):
+        now = self.loop.time()
+        return (self.parent is not None, self.plays > 1, self.rel_timers(),
+                tuple(sorted((e.priority, str(e.key) == "rival", tuple(e.dest_color) if e.dest_color is not None else None)
+                             for e in self.m.lights["l1"].stack)),
+                repr(self.m.shows["shp"].show_steps) if hasattr(self.m.shows["shp"], "show_steps") else None,
+                None if self.parent is None else simple_state(self.parent, exclude=("show", "show_steps", "callback", "start_callback",
+                                                                                     "id", "context", "show_config"), now=now))
+
+    def observe(self):
+        return {"l1": [(e.priority, str(e.key)) for e in self.m.lights["l1"].stack]}
+
+
 def long_run(ctx):
     """1000 loops of a 3 x 0.125 s show at speed 3 with every 7th timer woken late: no cumulative drift."""
     sysm = System("c17")
@@ -277,13 +328,19 @@ def body(ctx):
         ctx.violation(sig, what, {"history": hist})
     for k, v in res.stats.items():
         ctx.guard(k, v)
+    nres = bfs(NestedDriver, 8 if quick else 12, observe=False)
+    for sig, (what, hist) in nres.violations.items():
+        ctx.violation(sig, what, {"history": hist, "nested": True})
+    for k, v in nres.stats.items():
+        ctx.guard(k, v)
     loops = long_run(ctx)
     ctx.add(states=res.states, transitions=res.transitions, traces_validated_against_impl=res.transitions + 1,
             levels=res.levels, long_run_loops=loops, exhaustive=True)
     ctx.assume("two shows with binary-exact step durations on two lights; play variants %r" % [p[1] for p in PLAYS],
                "late wake-ups delay a step by 50 ms; the next step must stay on the original grid",
                "BFS depth 5 (quick) / 6 (thorough); at most two shows at a time")
-    return ("plays", "stops", "resumes", "late_wakeups", "steps_checked", "all_stopped_states", "long_run_loops")
+    return ("plays", "stops", "resumes", "late_wakeups", "steps_checked", "all_stopped_states", "long_run_loops",
+            "nested_parent_plays", "nested_entries_checked")
 
 
 def replay(ctx, data):
@@ -291,7 +348,7 @@ def replay(ctx, data):
     if rp.get("long_run"):
         long_run(ctx)
         return not ctx.violations
-    d = ShowDriver()
+    d = NestedDriver() if rp.get("nested") else ShowDriver()
     d.boot()
     for c in rp["history"]:
         d.step(c)
